@@ -17,6 +17,12 @@ type Storage interface {
 	SetTableMeta(tbl *btapb.Table)
 }
 
+// tableDeleter is implemented by storage layers that persist table metadata
+// and must forget a table when it is deleted.
+type tableDeleter interface {
+	DeleteTable(tbl *btapb.Table)
+}
+
 type keyType = []byte
 
 // Rows implements storage algorithms per table.
